@@ -183,6 +183,14 @@ def cmd_check(prop: str, tier: str) -> int:
             print(f"INFRA replay failed for {sig}: {r1.get('error') or r2.get('error')}",
                   file=sys.stderr)
             infra = True
+        elif r1 != r2 and r1.get("still_violates") and r2.get("still_violates") \
+                and sorted(r1.get("other_signatures") or []) == sorted(r2.get("other_signatures") or []) \
+                and sorted(map(str, r1.get("known_findings") or [])) == sorted(map(str, r2.get("known_findings") or [])):
+            # both fresh processes reproduce the violation with the same signatures, only the observed VALUE differs: the
+            # code under test consults something the harness does not own (the clock: a change that makes a result
+            # depend on now()).  The violation stands; the variation is recorded.
+            cls = "confirmed-observation-varies"
+            rec["observation_varies_between_replays"] = [r1.get("observed"), r2.get("observed")]
         elif r1 != r2:
             cls = "nondeterministic"
             print(f"INFRA nondeterministic replay for {sig}: {r1} vs {r2}", file=sys.stderr)
